@@ -274,3 +274,28 @@ Definition nontrivial (c : es_case) : bool :=
       || match t with TExit _ | TExitS _ _ => true | _ => false end
   end.
 Definition count_nontrivial (cs : list es_case) : nat := count_true (map nontrivial cs).
+
+(* ------------------------------------------------------------------ repeated / concurrent use *)
+(* The code keeps no state between extractions, so a history of extractions (some of which failed
+   part-way: None) is modelled by running [series] afresh on the tree of each step. *)
+Inductive hres := HFaulted | HOk (fs : list fout).
+Definition extract_seq (fuel : nat) (h : list (option frm)) : list hres :=
+  map (fun s => match s with None => HFaulted | Some f => HOk (series fuel f) end) h.
+
+(* hist: the same (still entered) tree extracted several times, with a faulted extraction in between *)
+Record hist_case := { h_root : frm; h_obs : list (list fout) }.
+Definition hist_ok (c : hist_case) : bool :=
+  avec_ok_frm case_fuel (h_root c) && (2 <=? length (h_obs c)) &&
+  forallb (fun o => leqb fout_eqb (series case_fuel (h_root c)) o) (h_obs c).
+Definition hist_mismatches (cs : list hist_case) : list nat := false_indices 0 (map hist_ok cs).
+Definition hist_nontrivial (cs : list hist_case) : nat := length cs.
+
+(* conc: elaborate_exit_stack iterates over a snapshot list(stack._exit_callbacks); a callback that
+   the owner thread registers during the unfolding is either wholly in the snapshot or not at all *)
+Record conc_case := { c_before : frm; c_after : frm; c_obs1 : list fout; c_obs2 : list fout }.
+Definition conc_ok (c : conc_case) : bool :=
+  avec_ok_frm case_fuel (c_after c) &&
+  (leqb fout_eqb (series case_fuel (c_before c)) (c_obs1 c) || leqb fout_eqb (series case_fuel (c_after c)) (c_obs1 c)) &&
+  leqb fout_eqb (series case_fuel (c_after c)) (c_obs2 c).
+Definition conc_mismatches (cs : list conc_case) : list nat := false_indices 0 (map conc_ok cs).
+Definition conc_nontrivial (cs : list conc_case) : nat := length cs.
